@@ -193,9 +193,106 @@ func (v *Verifier) effectObligations(cu *FuncUnit, con *Contract, name string) [
 				}
 			}
 			add("effect:const_suffix:"+f[0], cl.Text, ok, cu.Decl.Pos(), cl.Props, "constant "+f[0]+" does not end with "+want)
+		case strings.HasPrefix(txt, "template_fields "):
+			// effect template_fields <const> <Type>: every action of the constant template reads FIELDS of Type only - no method of
+			// that name exists (text/template would call it while the output file is already open), no call / pipeline
+			f := strings.Fields(txt[16:])
+			if len(f) != 2 {
+				panic(evalError{fmt.Sprintf("%s:%d: BINDING: effect template_fields <const> <Type>", cl.File, cl.Line)})
+			}
+			ok := false
+			why := "constant " + f[0] + " not found"
+			tn, _ := cu.Pkg.Types.Scope().Lookup(f[1]).(*types.TypeName)
+			if tn == nil {
+				panic(evalError{fmt.Sprintf("%s:%d: BINDING: effect template_fields: no type %s", cl.File, cl.Line, f[1])})
+			}
+			if text, found := v.constString(cu, f[0]); found {
+				ok = true
+				why = ""
+				for _, act := range templateActions(text) {
+					if strings.Contains(act, "|") || strings.Contains(act, "call ") || strings.Contains(act, "(") {
+						ok = false
+						why = "template action {{" + act + "}} is a call or pipeline"
+						break
+					}
+					for _, name := range dotNames(act) {
+						obj, _, _ := types.LookupFieldOrMethod(types.NewPointer(tn.Type()), true, cu.Pkg.Types, name)
+						if _, isField := obj.(*types.Var); !isField {
+							ok = false
+							why = "template action {{" + act + "}}: " + name + " is not a field of " + f[1] + " (a method is evaluated while the output file is open)"
+						}
+					}
+					if !ok {
+						break
+					}
+				}
+			}
+			add("effect:template_fields:"+f[0], cl.Text, ok, cu.Decl.Pos(), cl.Props, why)
 		default:
 			panic(evalError{fmt.Sprintf("%s:%d: BINDING: unknown effect clause %q", cl.File, cl.Line, txt)})
 		}
 	}
 	return obls
+}
+
+// constString: the value of a package-level variable or constant initialised by a constant string
+func (v *Verifier) constString(cu *FuncUnit, name string) (string, bool) {
+	for _, file := range cu.Pkg.Syntax {
+		for _, d := range file.Decls {
+			gd, isG := d.(*ast.GenDecl)
+			if !isG {
+				continue
+			}
+			for _, sp := range gd.Specs {
+				vs, isV := sp.(*ast.ValueSpec)
+				if !isV {
+					continue
+				}
+				for i, nm := range vs.Names {
+					if nm.Name == name && i < len(vs.Values) {
+						if tv, has := cu.Pkg.TypesInfo.Types[vs.Values[i]]; has && tv.Value != nil && tv.Value.Kind() == constant.String {
+							return constant.StringVal(tv.Value), true
+						}
+					}
+				}
+			}
+		}
+	}
+	return "", false
+}
+
+// templateActions: the texts between {{ and }}
+func templateActions(t string) []string {
+	var out []string
+	for {
+		i := strings.Index(t, "{{")
+		if i < 0 {
+			return out
+		}
+		j := strings.Index(t[i:], "}}")
+		if j < 0 {
+			return append(out, t[i+2:])
+		}
+		out = append(out, strings.TrimSpace(t[i+2:i+j]))
+		t = t[i+j+2:]
+	}
+}
+
+// dotNames: the identifiers that follow a '.' in a template action
+func dotNames(act string) []string {
+	var out []string
+	for i := 0; i < len(act); i++ {
+		if act[i] != '.' {
+			continue
+		}
+		j := i + 1
+		for j < len(act) && (act[j] == '_' || act[j] >= '0' && act[j] <= '9' || act[j] >= 'a' && act[j] <= 'z' || act[j] >= 'A' && act[j] <= 'Z') {
+			j++
+		}
+		if j > i+1 {
+			out = append(out, act[i+1:j])
+		}
+		i = j - 1
+	}
+	return out
 }
